@@ -332,14 +332,16 @@ class Verdict:
         return 1 if self.violations else 0
 
 def load_known_findings():
-    p = os.path.join(VERIF, 'known_findings.json')
+    """known_findings.json plus per-property fragments known_findings.d/*.json (same format)"""
     out = {}
-    try:
-        data = json.load(open(p))
-    except (OSError, ValueError):
-        return out
-    for e in data.get('findings', []):
-        out.setdefault(e['property'], []).append(e)
+    files = [os.path.join(VERIF, 'known_findings.json')] + sorted(glob.glob(os.path.join(VERIF, 'known_findings.d', '*.json')))
+    for p in files:
+        try:
+            data = json.load(open(p))
+        except (OSError, ValueError):
+            continue
+        for e in data.get('findings', []):
+            out.setdefault(e['property'], []).append(e)
     return out
 
 def standard_proof_steps(v, prop, gens, vo_targets, bins, corr_targets=None):
